@@ -1,4 +1,5 @@
 import Rp2.Proofs.Flows
+import Rp2.Proofs.BalanceColumns
 /-! # C07 — account balances equal the flows of each account and reconcile with unsold lots -/
 namespace Rp2.C07
 open Rp2
@@ -8,6 +9,22 @@ theorem final_is_flows (p : List BTx) (b : Bal) (a : Nat) :
     balAfter b p a = b a + sumOf (acqOf a) p + sumOf (recvOf a) p - sumOf (sentOf a) p := balAfter_flows p b a
 theorem reported_with_allow_negative (below : Int → Bool) (txs : List BTx) (b : Bal) :
     replay below true b txs = .ok (balAfter b txs) := replay_allow below txs b
+/-- **on the executable model** (`balances` of `Model/Pipeline.lean`, the function the drivers run): acquired, sent and received
+    of every account are the plain sums over that account's transactions up to the to-date -/
+theorem model_flows (allowNeg : Bool) (to : Option Int) (ins : List InTx) (outs : List OutTx) (intras : List IntraTx) (bs : List BalRow)
+    (h : balances allowNeg to ins outs intras = .ok bs) (a : Nat) :
+    colOf (·.acq) bs a = sumD dAcq a (balanceOrder to ins outs intras) ∧
+    colOf (·.sent) bs a = sumD dSent a (balanceOrder to ins outs intras) ∧
+    colOf (·.recv) bs a = sumD dRecv a (balanceOrder to ins outs intras) := balances_flows allowNeg to ins outs intras bs h a
+/-- final = acquired + received − sent -/
+theorem model_final (allowNeg : Bool) (to : Option Int) (ins : List InTx) (outs : List OutTx) (intras : List IntraTx) (bs : List BalRow)
+    (h : balances allowNeg to ins outs intras = .ok bs) (a : Nat) :
+    finOf bs a = colOf (·.acq) bs a + colOf (·.recv) bs a - colOf (·.sent) bs a := balances_final allowNeg to ins outs intras bs h a
+/-- every account touched appears exactly once; no other account appears -/
+theorem model_accounts_once (allowNeg : Bool) (to : Option Int) (ins : List InTx) (outs : List OutTx) (intras : List IntraTx) (bs : List BalRow)
+    (h : balances allowNeg to ins outs intras = .ok bs) :
+    (bs.map (·.acct)).Nodup ∧ ∀ x, x ∈ bs.map (·.acct) ↔ ∃ t ∈ balanceOrder to ins outs intras, x ∈ touched t :=
+  balances_accounts allowNeg to ins outs intras bs h
 /-- non-vacuity / sanity: buy 5 on account 0, move 2 (1.5 arrive) to account 1, sell 1 from account 1 -/
 example : balAfter (fun _ => 0) [.acq 0 50, .move 0 1 20 15, .out 1 10] 0 = 30 ∧
           balAfter (fun _ => 0) [.acq 0 50, .move 0 1 20 15, .out 1 10] 1 = 5 := by decide
